@@ -64,6 +64,7 @@ def run(ctx):
                       overrides={"Capacity": "2", "Getters": '{"g1", "g2", "g3"}', "Rounds": "2"} if thorough else None,
                       name="EventPoolStd/faithful")
     for mod, cfg, what in (("EventPoolLowMem", "EventPoolLowMem_d1.cfg", "heartbeat condition inverted"),
+                           ("EventPoolLowMem", "EventPoolLowMem_hbexit.cfg", "heartbeat goroutine exits when nobody waits and is never restarted"),
                            ("EventPoolStd", "EventPoolStd_nohb.cfg", "heartbeat removed")):
         r = ctx.tlc(mod, cfg, timeout=300, deadlock=False, name="%s/mutant (%s)" % (mod, what))
         if r.ok or r.violated != "NoWedge":
